@@ -124,10 +124,10 @@ def run(m: Model, r: Report, tier: str) -> None:
     ack = m.require_function(f"{DOIP}.DoIPConnection._read_ack")
     diag = m.require_function(f"{DOIP}.DoIPConnection.read_diag_request_raw")
     atoms = {"payload.SourceAddress != self.target_addr", "payload.TargetAddress != self.src_addr"}
-    tr.address_filter(r, "R6", ack, atoms)
-    tr.address_filter(r, "R6", diag, atoms)
+    tr.address_filter(r, "R6", ack, atoms, m)
+    tr.address_filter(r, "R6", diag, atoms, m)
     pref = [n for n in walk_no_nested(ack.node) if isinstance(n, ast.If) and "PreviousDiagnosticMessageData" in ast.unparse(n.test)]
-    okp = len(pref) == 1 and "payload.PreviousDiagnosticMessageData != prev_data[:len(payload.PreviousDiagnosticMessageData)]" in ast.unparse(pref[0].test)
+    okp = len(pref) == 1 and m.has(ack, "payload.PreviousDiagnosticMessageData != prev_data[:len(payload.PreviousDiagnosticMessageData)]", pref[0].test)
     r.check(okp, "R6", f"{ack.qualname}#echo-prefix", "the ack is not compared with the prefix of the message just sent", loc=ack.loc)
     tr.requeue_before_exit(r, "R7", ack, "self._read_queue", ("DoIPNegativeAckError",))
     tr.requeue_before_exit(r, "R7", diag, "self._read_queue")
@@ -146,17 +146,17 @@ def run(m: Model, r: Report, tier: str) -> None:
     # ---------------------------------------------------------------- R9
     wr = m.require_function(f"{DOIP}.DoIPConnection.write_request_raw")
     tr.ack_timeout_handler(m, r, "R9", wr, "self._read_ack")
-    wsrc = [ast.unparse(s_) for s_ in ast.walk(wr.node) if isinstance(s_, (ast.Expr, ast.Assign, ast.AugAssign))]
-    iw = next((i for i, t in enumerate(wsrc) if t == "self.writer.write(buf)"), None)
+    wsrc = [m.mtext(wr, s_) for s_ in ast.walk(wr.node) if isinstance(s_, (ast.Expr, ast.Assign, ast.AugAssign))]
+    iw = next((i for i, t in enumerate(wsrc) if t == m.mpat(wr, "self.writer.write(buf)")), None)
     idr = next((i for i, t in enumerate(wsrc) if t == "await self.writer.drain()"), None)
-    r.check(iw is not None and idr is not None and iw < idr and "buf += hdr.pack()" in wsrc and "buf += payload.pack()" in wsrc, "R9", f"{wr.qualname}#sends-frame",
+    r.check(iw is not None and idr is not None and iw < idr and m.mpat(wr, "buf += hdr.pack()") in wsrc and m.mpat(wr, "buf += payload.pack()") in wsrc, "R9", f"{wr.qualname}#sends-frame",
             "the frame (header + payload) must be written and drained before waiting for the acknowledgement", loc=wr.loc)
-    for q, callee in ((f"{DOIP}.DoIPConnection.write_diag_request", "await self.write_request_raw(hdr, payload)"),
-                      (f"{DOIP}.DoIPConnection.write_routing_activation_request", "await self.write_request_raw(hdr, payload)"),
-                      (f"{DOIP}.DoIPTransport.write", "await asyncio.wait_for(self._conn.write_diag_request(data), timeout)"),
-                      (f"{DOIP}.DoIPTransport._connect", "await conn.write_routing_activation_request(activation_type)")):
+    for q, callee in ((f"{DOIP}.DoIPConnection.write_diag_request", "self.write_request_raw(hdr, payload)"),
+                      (f"{DOIP}.DoIPConnection.write_routing_activation_request", "self.write_request_raw(hdr, payload)"),
+                      (f"{DOIP}.DoIPTransport.write", "asyncio.wait_for(self._conn.write_diag_request(data), timeout)"),
+                      (f"{DOIP}.DoIPTransport._connect", "conn.write_routing_activation_request(activation_type)")):
         fx = m.require_function(q)
-        r.check(any(ast.unparse(s_).startswith(callee) for s_ in ast.walk(fx.node) if isinstance(s_, ast.Expr)), "R9", f"{q}#delegates",
+        r.check(any(isinstance(s_, ast.Expr) and isinstance(s_.value, ast.Await) and m.eqm(fx, s_.value.value, callee) for s_ in ast.walk(fx.node)), "R9", f"{q}#delegates",
                 f"must await `{callee}`", loc=fx.loc)
     arms2 = {ast.unparse(c.pattern): c for x in ast.walk(wr.node) if isinstance(x, ast.Match) for c in x.cases}
     r.check("RoutingActivationRequest()" in arms2 and "self._read_routing_activation_response()" in ast.unparse(arms2.get("RoutingActivationRequest()") or ast.Pass()), "R5",
